@@ -526,8 +526,15 @@ def check_function(chk, f, want_destroy, rules, only=("W", "D", "C"), db=None):
                     break
             else:
                 ds_ = d
+            # the dominating tests were made against the size the object had *before* this store
+            saved_size = env.size
+            env.size = old
+            try:
+                by_fact = shrink_fact(pf, new, env)
+            finally:
+                env.size = saved_size
             shrinking = (ds_.is_const() and ds_.k <= 0) or (all(v <= 0 for v in ds_.c.values()) and ds_.k <= 0 and not (set(ds_.c) & env.signed)) \
-                or shrink_fact(pf, new, env)
+                or by_fact
             before = [x for x in evs[:i]]
             # ---- shrink: destroyed range is the removed tail
             if shrinking:
